@@ -17,13 +17,15 @@ VERIF = os.path.dirname(os.path.dirname(os.path.abspath(__file__)))
 def main():
     wt, prop, src, dst = sys.argv[1:5]
     sd = os.path.join(wt, "_seed")
-    if not os.path.isdir(sd) and os.path.isdir(os.path.join(wt, "out_" + prop)):
-        sd = os.path.join(wt, "out_" + prop)          # round 3 deliverables directory
-    backup = os.path.join(os.path.dirname(wt.rstrip("/")), "out", prop)     # verify_seed.sh removes <worktree>/_seed
+    tag = os.path.basename(wt.rstrip("/"))
+    for cand in ("out_" + prop, "out_" + tag):
+        if not os.path.isdir(sd) and os.path.isdir(os.path.join(wt, cand)):
+            sd = os.path.join(wt, cand)               # rounds 3 and 4 deliverables directory
+    backup = os.path.join(os.path.dirname(wt.rstrip("/")), "out", tag)      # verify_seed.sh removes <worktree>/_seed
     if os.path.isdir(sd) and not os.path.isdir(backup):
         os.makedirs(os.path.dirname(backup), exist_ok=True)
         shutil.copytree(sd, backup)
-    tmp = "/tmp/import_seed_%s_%s" % (prop, src)
+    tmp = "/tmp/import_seed_%s_%s_%s" % (tag, prop, src)
     shutil.rmtree(tmp, ignore_errors=True)
     shutil.copytree(backup, tmp)
     out = subprocess.run(["sh", os.path.join(VERIF, "tools", "verify_seed.sh"), wt, tmp, src], capture_output=True, text=True).stdout.strip()
